@@ -67,7 +67,7 @@ struct LoopCase {
     driver: String,
 }
 
-pub const DRIVERS: [&str; 12] = ["named-let", "callcc-backedge", "mutual-tail", "apply-tail", "do-nothing-but-builtins", "when-tail", "variadic-tail", "delay-force", "closure-threaded", "eval-tail", "or-and-tail", "cond-case-let-tail"];
+pub const DRIVERS: [&str; 13] = ["named-let", "callcc-backedge", "mutual-tail", "apply-tail", "do-nothing-but-builtins", "when-tail", "variadic-tail", "delay-force", "closure-threaded", "eval-tail", "or-and-tail", "cond-case-let-tail", "rebound-builtin-tail"];
 
 /// The loop that runs the garbage expression n times. The back edge differs: a tail call of a
 /// named-let procedure; the re-entry of a continuation captured once (no procedure is entered
@@ -150,6 +150,13 @@ fn loop_definition(driver: &str, garbage: &str) -> Vec<String> {
             format!("(define (%casespin i n) (case (if (< i n) 'go 'stop) ((go on) {} (%casespin (+ i 1) n)) (else 'done)))", garbage),
             format!("(define (%letspin i n) (let* ((j (+ i 1)) (m n)) (letrec ((more (lambda () (< i m)))) (if (more) (begin {} (%letspin j m)) 'done))))", garbage),
             "(define (%garbage-loop n) (%condspin 0 n) (%casespin 0 n) (%letspin 0 n) 'done)".to_string(),
+        ],
+        // the loop runs through a call site that was compiled while the operator's name still
+        // denoted a built-in procedure; the name is bound to a closure afterwards
+        "rebound-builtin-tail" => vec![
+            format!("(define (%rspin i n) (if (< i n) (begin {} (truncate (+ i 1) n)) 'done))", garbage),
+            "(define (truncate i n) (if (< i n) (%rspin i n) 'done))".to_string(),
+            "(define (%garbage-loop n) (%rspin 0 n))".to_string(),
         ],
         "apply-tail" => vec![
             format!("(define (%spin i n) (if (< i n) (begin {} (apply %spin (+ i 1) (list n))) 'done))", garbage),
